@@ -13,6 +13,10 @@ def handleC02 (j : PJson) : PJson :=
               | _ => none) with
       | some u0, some ch => mk [("expr", exprToJson (parseChain u0 ch))]
       | _, _ => mk [("bad", .str "chain request")]
+  | "parse" =>
+      match parseExpr (j.strD "text") with
+      | .ok e => mk [("expr", exprToJson e)]
+      | .error err => mk [("error", .str err.error), ("column", .num err.column)]
   | op => mk [("bad", .str ("unknown op " ++ op))]
 
 def main : IO Unit := Proto.run handleC02
